@@ -103,17 +103,11 @@ Proof.
 Qed.
 
 (* ----------------------------------------------------------- msgpack ---- *)
-Lemma take_exact_app {A} (a b : list A) : take_exact (length a) (a ++ b) = Some (a, b).
-Proof. induction a as [|x a IH]; [reflexivity|]. cbn [length app take_exact]. rewrite IH. reflexivity. Qed.
-
 Lemma be_enc2 n : be_enc 2 n = [n2b (n / 256); n2b n].
 Proof. cbn [be_enc]. f_equal. f_equal. change (256 ^ N.of_nat 0) with 1. rewrite N.div_1_r. reflexivity. Qed.
 
 Lemma be_enc4 n : exists a b c d, be_enc 4 n = [a; b; c; d].
 Proof. cbn [be_enc]. eauto. Qed.
-
-Lemma blen_nat body : N.to_nat (blen body) = length body.
-Proof. unfold blen. lia. Qed.
 
 Lemma dec_msgpack_one_fmt body rest : blen body < 2 ^ 32 ->
   dec_msgpack_one (fmt_msgpack body ++ rest) = Some (body, rest).
